@@ -775,3 +775,40 @@ def run_set_extent(prog, rep):
         probs.append('no path sets the extent')
     rule.check(not probs, 'DataSet::setExtent', rep.where(f), f.label(), 'H5Dset_extent(hid, dims.data()) checked on every returning path', '; '.join(sorted(set(probs))[:2]))
     return rule
+
+
+def run_string_buffers(prog, rep):
+    """transfer functions that receive the caller's std::string array (std::string *) hand it to the marshalling helper and do
+    nothing else with it: StringWriter::finish / StringReader are the only places where its elements are touched (R-STRIO)"""
+    rule = rep.rule('R-STRBUF', 'backend functions that take the caller\'s string array (std::string *) pass it to StringWriter / StringReader (or on to such a function) and never read or change its elements themselves', floor=2)
+    n = 0
+    for f in sorted(prog.funcs.values(), key=lambda f: (f.file, f.line)):
+        if f.body is None or not f.q.startswith('nix::hdf5::') or (f.cls or '').endswith('StringWriter') or (f.cls or '').endswith('StringReader'):
+            continue
+        sp = [p for p in f.params if re.match(r'^(const )?std::(__cxx11::)?(basic_)?string(<char>)? ?\*$', p['type'].strip())]
+        for p in sp:
+            n += 1
+            uses = [x for x in f.walk() if x.k == 'ref' and x.decl.get('lid') == p['lid']]
+            par = {}
+            for x in f.walk():
+                for c in x.c:
+                    if c is not None:
+                        par[c.id] = x
+            probs = []
+            for u in uses:
+                y = u
+                while y.id in par and par[y.id].k in ('cast', 'paren') or (y.id in par and unwrap(par[y.id]).id == unwrap(y).id and par[y.id].id != y.id and par[y.id].k not in ('call', 'construct', 'var')):
+                    y = par[y.id]
+                pp = par.get(y.id)
+                okk = pp is not None and (pp.k == 'construct' or (pp.k == 'call' and not pp.get('op')) or pp.k == 'var' and 'String' in (pp.get('type') or ''))
+                if okk and pp.k in ('construct', 'call'):
+                    cls = (pp.callee or {}).get('cls') or ''
+                    nm = (pp.callee or {}).get('name') or ''
+                    okk = 'StringWriter' in cls or 'StringReader' in cls or nm in ('read', 'write', 'getAttr', 'setAttr', 'StringWriter', 'StringReader')
+                if not okk:
+                    probs.append('%s at line %s' % ((pp.src(50) if pp is not None else u.src(20)), u.l))
+            rule.check(not probs, '%s%s|%s' % (f.q, f.sig[:70], p['name']), rep.where(f), f.label(), 'only handed to the string marshalling helper (%d use(s))' % len(uses),
+                       'the caller\'s strings are touched outside the marshalling helper: %s - what the caller reads is not what is stored (trailing blanks, case, padding)' % '; '.join(probs[:2]))
+    if n < 2:
+        raise AnalysisBroken('R-STRBUF: only %d string array parameters found' % n)
+    return rule
